@@ -912,6 +912,14 @@ def _mujoco_assembly(ctx):
                 horizon *= 3
             for ep in range(episodes):
                 gobs0, _ = g.reset(seed=int(ctx.rng.integers(0, 2**31 - 1)))
+                if ep == episodes - 1 and name in ("Hopper", "Walker2d", "HalfCheetah", "Swimmer"):
+                    # a legal but fast start state: some joint velocities beyond +-10 (where Hopper / Walker2d
+                    # clip the velocities they report, whatever the observation options)
+                    qv = np.array(g.data.qvel, dtype=np.float64)
+                    for j in ctx.rng.choice(len(qv), size=min(2, len(qv)), replace=False):
+                        qv[j] = float(ctx.rng.choice([-1.0, 1.0])) * float(ctx.rng.uniform(10.5, 14.0))
+                    g.set_state(np.array(g.data.qpos, dtype=np.float64), qv)
+                    ctx.count(f"mujoco:{name}:fast-start-episodes")
                 for t in range(horizon):
                     kind = "corner" if t % 5 == 3 else ("zero" if t % 7 == 6 else "uniform")
                     action = _mj_action(ctx, g, kind)
@@ -1158,6 +1166,9 @@ def run(ctx):
     _cartpole(ctx, dict(gravity=9.0, cart_mass=1.3, pole_mass=0.25, half_length=0.7, force_mag=8.0))
     _mountaincar(ctx, dict(goal_position=0.45, goal_velocity=0.01, force=0.0015, gravity=0.002, max_speed=0.06))
     _cmc(ctx, dict(power=0.002, goal_position=0.4, goal_velocity=0.01, max_speed=0.06))
+    # a goal velocity the car can never reach (above max_speed): Gymnasium then never terminates / pays the bonus
+    _cmc(ctx, dict(goal_velocity=0.1))
+    _mountaincar(ctx, dict(goal_velocity=0.1))
     _acrobot(ctx, dict(link_length_1=1.5, link_length_2=0.6, link_mass_1=1.2, link_mass_2=0.8,
                        link_com_pos_1=0.6, link_com_pos_2=0.4, link_moi=1.3))
     _pendulum(ctx)
